@@ -58,6 +58,7 @@ type Obligation struct {
 	Result  SolveResult
 	Vacuity bool // must be SAT (reachability / satisfiable precondition)
 	Canary  bool // must NOT be unsat
+	Probe   bool // informational dead-code probe (debug)
 	Inputs  map[string]string // human name -> SMT term
 	Clause  string
 	ResultTerms []string
